@@ -116,7 +116,7 @@ def main(argv=None):
         if key in open_keys and id(case) not in dis_ids:
             seen_known[key] = open_keys[key]
             return
-        small = drv.shrink(case) if hasattr(drv, 'shrink') else case
+        small = drv.shrink(case) if hasattr(drv, 'shrink') and not os.environ.get('VERIF_NOSHRINK') else case
         path = core.write_replay(pid, 'oracle', dict(
             seed=seed, tier=tier, case=small.get('meta'), why=why,
             impl_observation=small.get('cobs'), coq_input=small.get('cin'),
